@@ -80,6 +80,9 @@ def recorderConfigFields : String := "MinSecs:thermalRecorderConfig.MinSecs;MaxS
 /-- RecorderConfig.validate: the rejected case -/
 def recorderConfigValidate : String := "conf.MaxSecs < conf.MinSecs"
 
+/-- MotionProcessor.Reset: the statements of its body -/
+def processorResetBody : String := "mp.stopRecording();mp.motionDetector.Reset(camera)"
+
 /-- frameParser: camera model -> parser -/
 def frameParserMap : String := "lepton3.Model,lepton3.Model35=>return lepton3.ParseRawFrame;\"boson\"=>return convertRawBosonFrame"
 
